@@ -18,4 +18,17 @@ CLAIMED["C15"] = (
     "scipy.stats.norm trusted as CDF reference; q in [0.01,0.995]; estimator relation asserted with loose tolerances (optimiser amplifies float32 rounding)",
     "DESIGN.md §4 C15",
 )
+ASYNC_NOTE = "threaded runtime observed through its public record; supported class of DESIGN §2.1; OS thread schedule is whatever occurred (plus C02's perturbations); <=5 nodes, <=12 supervisor steps"
+CLAIMED["C03"] = (
+    PBT + ": validity predicate over generated episode records (delivery, FIFO, causality, policy-prescribed consumer step, window contents) written from the documentation",
+    "Generated node systems (topology, rates, blocking/skip/jitter/window, light/heavy/tie-pressure/zero delays, both clocks, three driving APIs) are run on the real "
+    "threaded runtime; every episode record is judged by an independent reference of the connection policies. Exploration fits: the property is universal over graphs and seeds.",
+    ASYNC_NOTE, "DESIGN.md §4 C03",
+)
+CLAIMED["C04"] = (
+    PBT + ": reference evaluation of the start-time recurrence (rate, phase, drift, previous end, blocking arrivals) from configuration + recorded delays",
+    "Same generated systems incl. overruns (heavy class), PHASE/FREQUENCY, advance; each recorded step start/end and each deterministic message arrival is recomputed "
+    "by an independent reference of the documented law and compared within 2 us.",
+    ASYNC_NOTE, "DESIGN.md §4 C04",
+)
 NOT_APPLICABLE = {}
